@@ -1,7 +1,28 @@
 """C25 Query expressions evaluate like language expressions (compile/ast/expr.go, dbms/query/where.go)
 
-Mutation testing (scratch worktrees, quick tier; each mutant compiles and keeps the
-package tests green; all are reported as VIOLATION): see the end of this docstring.
+Findings on the unchanged tree (FAMILIES below are the fallback keys, matched on the rejected expression):
+  new  t where b < "" or b <= 3 selects nothing (an empty index span makes the whole or a conflict)
+       fix: commit in /tmp/wt-values                         key qexpr-or-with-empty-alternative-selects-nothing
+  new  t extend z = 2 / d fails with ASSERT FAILED: should not reach here (consequence of the folder
+       putting the divide first, fixed by the C30 folder fix)                key qexpr-const-div-field-assert
+  new  is / isnt / in on stored encodings of equal objects whose named members were inserted in different
+       orders is false (no small fix: packing order)   key qexpr-object-equality-named-order-on-stored-encoding
+  new  < <= > >= with object operands on stored encodings compare bytes, not list members
+       (no small fix)                                              key qexpr-object-order-on-stored-encoding
+
+Mutation testing (scratch worktree on top of the fix commits, quick tier, seed 1, the two object families
+assumed recorded; "tests" = go test -short ./compile/ast/ ./dbms/query/ (./core/) with the mutant):
+  Q2  expr.go   InRange.EvalRaw: upper bound always inclusive                    tests green   VIOLATION
+  Q8  where2.go orSpan keeps empty spans (the or-selects-nothing defect)         tests green   VIOLATION
+  V3  ops.go    OpInRange: upper bound always inclusive                          tests green   VIOLATION
+  V9  expr.go   raw Number? misses negative numbers                              tests green   VIOLATION (after type tests on every column)
+  V10 expr.go   raw Date? never true for dates                                   tests green   VIOLATION
+  Q1 raw <= as <, Q3 raw in looks at first member only, Q5 raw String? misses "", Q6 value <= as <,
+  Q7 raw and returns after first operand, R1/R2 index span of >= / <= excludes the bound, T1 Number? span
+  misses positive numbers, T2 String? span misses "", I1 in-span drops last member, O1 merged or-spans
+  intersected (after adding same-column alternatives): all VIOLATION, but the packages' own tests fail with them
+  Q4 where2.go index span of > includes the bound: not reported - equivalent (the where filter
+     re-evaluates the expression on every row of the range)
 """
 
 import json, os, re
